@@ -362,11 +362,26 @@ type c12Buf struct {
 	cons    []*c12Cons
 	atClose []interface{}
 	sliced  bool
+	fixed   bool // FixedBufferCleaner(max, target) instead of the default cleaner
+	max     int
+	target  int
+	differ  int // index of the consumer a separate goroutine calls Diff on (-1 none)
+	dpause  pause
+	dBusy   bool
 }
 
 func newC12Buf(r *c12Run, nCons int) *c12Buf {
 	r.seq++
-	x := &c12Buf{id: r.seq, cool: drawCooldown()}
+	x := &c12Buf{id: r.seq, cool: drawCooldown(), differ: -1}
+	if simrt.Chance(1, 3) {
+		x.fixed = true
+		x.max = simrt.DrawRange(1, 4)
+		x.target = simrt.DrawRange(0, x.max)
+	}
+	if nCons > 0 && simrt.Chance(1, 2) {
+		x.differ = simrt.Draw(nCons)
+		x.dpause = drawPause()
+	}
 	for k := simrt.DrawRange(0, 3); k > 0; k-- {
 		x.batches = append(x.batches, simrt.DrawRange(1, 3))
 		x.ppause = append(x.ppause, drawPause())
@@ -410,7 +425,11 @@ func newC12Buf(r *c12Run, nCons int) *c12Buf {
 }
 
 func (x *c12Buf) start(r *c12Run) {
-	x.b = newBuffer(nil, x.cool)
+	var cleaner bigbuff.Cleaner
+	if x.fixed {
+		cleaner = bigbuff.FixedBufferCleaner(x.max, x.target, func(bigbuff.FixedBufferCleanerNotification) { simrt.Fault("forced_trim") })
+	}
+	x.b = newBuffer(cleaner, x.cool)
 	name := fmt.Sprintf("buffer %d", x.id)
 	x.h = r.newHandle(name, x.b.Close, x.b.Done, func(h *c12Handle) bool {
 		h.postStage = "Slice"
@@ -507,6 +526,18 @@ func (x *c12Buf) start(r *c12Run) {
 			resolve(k.commit[k.reads])
 		}()
 	}
+	if x.differ >= 0 {
+		// another goroutine inspects a consumer (Diff / Buffer.Range) while it is being used and closed;
+		// it may have to wait for a blocked Get of that consumer, never longer
+		k := x.cons[x.differ]
+		go func() {
+			x.dpause.do(c12Unit)
+			x.dBusy = true
+			simrt.Probe("diff_concurrent_with_close_paths")
+			x.b.Diff(k.c) // (Buffer.Range would commit on the user's behalf; Diff takes the same locks)
+			x.dBusy = false
+		}()
+	}
 	go func() { // the producer
 		defer func() { x.prodEnd = true }()
 		next := 0
@@ -541,6 +572,10 @@ func (x *c12Buf) verify(r *c12Run) bool {
 			return false
 		}
 	}
+	if x.dBusy {
+		simrt.Failf("C12.call-stuck", "buffer %d: a Diff / Buffer.Range on consumer %d has not returned at quiescence after the shutdown phase", x.id, x.differ)
+		return false
+	}
 	if !x.sliced {
 		simrt.Failf("C12.close-stuck", "buffer %d: the later calls after Close were never reached", x.id)
 		return false
@@ -553,8 +588,13 @@ func (x *c12Buf) verify(r *c12Run) bool {
 			maxCommitted = k.commits
 		}
 	}
-	for pass, s := range [][]interface{}{x.atClose, x.b.Slice()} {
-		if len(s) > len(x.put) || len(s) < len(x.put)-maxCommitted {
+	final := x.b.Slice()
+	if len(final) != len(x.atClose) {
+		simrt.Failf("C12.slice-after-close", "buffer %d: Slice() returned %d values right after Close and %d at the end: the contents of a closed buffer changed", x.id, len(x.atClose), len(final))
+		return false
+	}
+	for pass, s := range [][]interface{}{x.atClose, final} {
+		if len(s) > len(x.put) || (!x.fixed && len(s) < len(x.put)-maxCommitted) {
 			simrt.Failf("C12.slice-after-close", "buffer %d: Slice() after Close (pass %d) has %d values; %d were put and at most %d were committed by any consumer", x.id, pass, len(s), len(x.put), maxCommitted)
 			return false
 		}
